@@ -5,6 +5,7 @@ mod c07;
 mod c16;
 mod c17;
 mod c18;
+mod c19;
 mod c20;
 mod mp4gen;
 mod mp4props;
@@ -31,7 +32,7 @@ pub fn install_panic_hook() {
 }
 
 pub fn quiet<T, F: FnOnce() -> T + std::panic::UnwindSafe>(f: F) -> std::thread::Result<T> {
-    QUIET.store(true, Ordering::SeqCst);
+    QUIET.store(std::env::var_os("VERIF_DEBUG").is_none(), Ordering::SeqCst);
     let r = std::panic::catch_unwind(f);
     QUIET.store(false, Ordering::SeqCst);
     r
@@ -123,6 +124,7 @@ fn main() {
             "C16" => c16::replay(&line, &mut out),
             "C17" => c17::replay(&line, &mut out),
             "C18" => c18::replay(&line, &mut out),
+            "C19" => c19::replay(&line, &mut out),
             "C20" => c20::replay(&line, &mut out),
             "C01" | "C02" | "C03" | "C04" | "C05" => mp4props::replay(&prop, &line, &mut out),
             _ => {
@@ -140,6 +142,7 @@ fn main() {
         "C16" => c16::run(&opts, &mut out),
         "C17" => c17::run(&opts, &mut out),
         "C18" => c18::run(&opts, &mut out),
+        "C19" => c19::run(&opts, &mut out),
         "C20" => c20::run(&opts, &mut out),
         "C01" | "C02" | "C03" | "C04" | "C05" => mp4props::run(&prop, &opts, &mut out),
         _ => {
